@@ -5,6 +5,8 @@ import (
 	"flag"
 
 	"verifharness/pk"
+	_ "verifharness/pk/b1"
+	_ "verifharness/pk/b2"
 	_ "verifharness/pk/core"
 	"verifharness/sx"
 )
